@@ -264,7 +264,20 @@ def translate_accessors(read_src, consts, aliases=None, fallback=None):
     return items
 
 
-def emit_accessors(items):
+def translate_native(read_src):
+    """every `#[cfg(target_endian = "…")] pub type NativeEndian = …;` arm -> [(target is little, alias is LittleEndian)]"""
+    src = read_src("endian.rs")
+    arms = []
+    for m in re.finditer(r'#\[cfg\(\s*target_endian\s*=\s*"(little|big)"\s*\)\]\s*(?:#\[[^\]]*\]\s*)*pub\s+type\s+NativeEndian\s*=\s*(\w+)\s*;', src):
+        if m.group(2) not in ("LittleEndian", "BigEndian"):
+            raise TranslateError("NativeEndian aliases %s" % m.group(2))
+        arms.append((m.group(1) == "little", m.group(2) == "LittleEndian"))
+    if not arms:
+        raise TranslateError("no cfg(target_endian) arm defines NativeEndian")
+    return arms
+
+
+def emit_accessors(items, native=None):
     out = ["-- GENERATED by /verif/translator/translate.py (accessors.py) from /repo/src — do not edit.",
            "import ElfVerif.Model.Basic",
            "import ElfVerif.Generated.AbiConsts",
@@ -275,6 +288,10 @@ def emit_accessors(items):
         params = " ".join("(%s : Nat)" % lname(f) for f, _ in it["params"])
         out.append("/-- `%s::%s`; reads %s -/" % (it["type"], it["fn"], ", ".join("%s: %s" % p for p in it["params"]) or "nothing"))
         out.append("def acc_%s_%s %s : %s :=\n    %s" % (it["type"], it["fn"], params, it["lean_ty"], it["body"]))
+        out.append("")
+    if native is not None:
+        out.append("/-- `pub type NativeEndian = …` under each `cfg(target_endian = …)`: (the target is little-endian, the alias is `LittleEndian`) -/")
+        out.append("def nativeArms : List (Bool × Bool) := [%s]" % ", ".join("(%s, %s)" % (str(a).lower(), str(b).lower()) for a, b in native))
         out.append("")
     out.append("end Elf.Gen")
     return "\n".join(out) + "\n"
